@@ -238,3 +238,53 @@ Module Concrete.
      | None => []
      end).
 End Concrete.
+
+(* ------------------------------------------------------------------ Script() call histories *)
+(* Deposit.Script() as written reads nothing but the fields of its receiver: a sequence of calls
+   in one process - on one long-lived Deposit mutated between calls, on struct copies sharing the
+   funding Utxo pointer, on deposits with equal outpoints behind different pointers, through the
+   sweep assembly - is the map of the pure function.  [past] is everything the process has seen
+   before (the "memory" a stateful implementation could consult): the model ignores it. *)
+Fixpoint run_history (past l : list dep_in) : list (option bytes) :=
+  match l with
+  | [] => []
+  | d :: t => script_of d :: run_history (past ++ [d]) t
+  end.
+
+(* one call of a history: the call's own parameters, the script it returned (copied at once), the
+   spend matrix run against that script, and the SAME returned slice re-read after all later calls *)
+Record hist_entry := { he_case : dep_case; he_late : option bytes }.
+
+Inductive anycase := DOne (c : dep_case) | DHist (l : list hist_entry).
+
+Module History.
+  Definition late_ok (e : hist_entry) : bool :=
+    opt_eqb bytes_eqb (he_late e) (dc_script (he_case e)).
+
+  (* the property, per call with THAT call's parameters, + the returned slice never changes *)
+  Definition hspec_ok (l : list hist_entry) : bool :=
+    forallb (fun e => Concrete.spec_ok (he_case e) && late_ok e) l.
+
+  (* history = map of the pure function, byte for byte, and the engine verdicts *)
+  Definition hagree (l : list hist_entry) : bool :=
+    list_eqb (opt_eqb bytes_eqb) (run_history [] (map (fun e => dc_in (he_case e)) l))
+             (map (fun e => dc_script (he_case e)) l)
+    && forallb (fun e => Concrete.agree (he_case e)) l.
+
+  Definition is_bad (v : verdict) : bool := match v with BadCase => true | _ => false end.
+
+  Definition hjudge (l : list hist_entry) : verdict :=
+    match l with
+    | [] => BadCase
+    | _ => if existsb (fun e => is_bad (Concrete.judge (he_case e))) l then BadCase
+           else decide (hspec_ok l) (hagree l)
+    end.
+End History.
+
+Definition judge_any (a : anycase) : verdict :=
+  match a with DOne c => Concrete.judge c | DHist l => History.hjudge l end.
+Definition explain_any (a : anycase) : list (option bytes * list vres) :=
+  match a with
+  | DOne c => [Concrete.explain c]
+  | DHist l => map (fun e => Concrete.explain (he_case e)) l
+  end.
